@@ -33,7 +33,7 @@ pub static SPEC: Spec = Spec {
         "writer cores only (replicas: C03); clear end bounded to 3 bitfield pages beyond the length",
     ],
     exhaustive_note: "all symbol sequences of length L over the 8-symbol alphabet (inapplicable clears skipped); every prefix is checked because the oracle runs after every op",
-    hang_secs: 120,
+    hang_secs: 240,
 };
 
 fn exh_len(t: Tier) -> usize {
